@@ -639,7 +639,7 @@ func (l *lane) catalogue() []*request {
 		}
 	} else {
 		// leader-only lanes: hostile table names, then every wire mutation for every method
-		for i := 0; i < 9; i++ {
+		for i := 0; i < len(hostileNameList); i++ {
 			name := hostileNameAt(i)
 			out = append(out, &request{Method: mCreate, Kind: "probe:hostile-table-name", Msg: &pb.CreateTableRequest{Name: name}})
 		}
@@ -670,9 +670,15 @@ func (l *lane) catalogue() []*request {
 	return out
 }
 
+// hostileNameList: names around every length limit a file system or the API may have (in bytes AND
+// in characters: multi-byte names are short in runes and long in bytes), plus special bytes.
+var hostileNameList = []string{strings.Repeat("n", 300), "nul\x00byte", "sl/ash", "../esc", "\xff\xfe\xfd", ".", strings.Repeat("N", 5000), " ", "new\nline",
+	strings.Repeat("表", 100), // 100 characters, 300 bytes
+	strings.Repeat("é", 126), // 126 characters, 252 bytes
+	strings.Repeat("x", 200), strings.Repeat("y", 201), strings.Repeat("z", 250), strings.Repeat("w", 255), strings.Repeat("表", 66) + "ab"}
+
 func hostileNameAt(i int) string {
-	// the same nine names hostileNames draws from
-	return []string{strings.Repeat("n", 300), "nul\x00byte", "sl/ash", "../esc", "\xff\xfe\xfd", ".", strings.Repeat("N", 5000), " ", "new\nline"}[i%9]
+	return hostileNameList[i%len(hostileNameList)]
 }
 
 func setTable(msg any, t []byte) {
